@@ -55,6 +55,24 @@ class Space:
     def of_op(self, o):
         return complex(o.factor) * self.word(o.split_symbol, o.dofs)
 
+    def scale_of(self, v):
+        """natural magnitude of a value: sum over its terms of |factor| * sqrt(dim) * prod |letter|_2 (an upper bound
+        of the Frobenius norm of the term, never zero for a non-zero factor -- a nilpotent word such as
+        "sigma_+ sigma_+" still counts with its coefficient).  Every tolerance of this oracle is relative to it
+        (DESIGN 12: 1e-9 relative to the operand norms), so the comparisons are invariant under a global scale."""
+        if isinstance(v, Op):
+            b = float(np.sqrt(self.dim))
+            for s_, d_ in zip(v.split_symbol, v.dofs):
+                k = ("n", s_, d_)
+                if k not in self.cache:
+                    self.cache[k] = float(np.linalg.norm(self.local(s_, d_), 2))
+                b *= self.cache[k]
+            return abs(complex(v.factor)) * b
+        if isinstance(v, list):
+            return sum(self.scale_of(o) for o in v)
+        return abs(complex(v))
+
+
     def of_value(self, v):
         if isinstance(v, Op):
             return self.of_op(v)
@@ -101,7 +119,7 @@ EL_OK = {("I",), ("a",), (r"a^\dagger",), (r"a^\dagger", "a")}
 def mpo_eligible(sp, terms, expect):
     # Mpo() rejects empty / all-zero term lists, and (observed, outside C15) raises a NumPy ValueError
     # for terms that cancel exactly; only non-zero operators are compared through this route
-    if not terms or all(t.factor == 0 for t in terms) or np.linalg.norm(expect) < 1e-9:
+    if not terms or all(t.factor == 0 for t in terms) or np.linalg.norm(expect) <= 1e-9 * sp.scale_of(list(terms)):
         return False
     for t in terms:
         per = {}
@@ -182,7 +200,7 @@ def check_program(prog, sp, tb):
             slack = atol * (sum(np.linalg.norm(sp.word([s for s, _ in k], [d for _, d in k]), 2)
                                 for k in set(inp) - set(outk) if k != ID) + max(0, n_id_in - n_id_out))
             diff2 = float(np.linalg.norm(out - a, 2))          # spectral norm on both sides of the bound
-            if diff2 > slack * (1 + 1e-9) + TOL * (1 + norm(a)):
+            if diff2 > slack * (1 + 1e-9) + TOL * (norm(a) + node["_in_scale"]):
                 bad.append({"what": "simplify changes the operator beyond atol", "atol": atol,
                             "diff": diff2, "allowed": float(slack)})
             return out
@@ -207,7 +225,7 @@ def check_program(prog, sp, tb):
             # scalar zero added to an operator etc. never reaches here: both sides are values of the node
             bad.append({"what": "kind mismatch", "node": node["t"]})
             return
-        if norm(got - e) > TOL * (1 + norm(e)):
+        if norm(got - e) > TOL * (norm(e) + sp.scale_of(value)):
             bad.append({"what": "dense(value) != matrix expression", "node": node["t"], "op": node.get("op"),
                         "diff": norm(got - e), "norm": norm(e), "value": repr(value)[:300]})
 
@@ -239,6 +257,7 @@ def check_program(prog, sp, tb):
         elif t == "neg":
             v = -node["_a"]
         elif t == "simplify":
+            node["_in_scale"] = sp.scale_of(node["_a"]) if isinstance(node["_a"], list) else 0.0
             node["_in_keys"] = [okey(o) for o in node["_a"]] if isinstance(node["_a"], list) else []
             node["_in_idkeys"] = [o.dofs[0] for o in node["_a"] if okey(o) == (("I", None),)] if isinstance(node["_a"], list) else []
             v = node["_a"].simplify() if node.get("atol") is None else node["_a"].simplify(atol=L.scalar(node["atol"]))
@@ -286,12 +305,14 @@ def check_program(prog, sp, tb):
             if not mpo_eligible(sp, terms, expect):
                 continue
             try:
-                d = Mpo(sp.model, terms).todense()
+                # at tiny global scales the default "qr" construction of the unchanged tree raises IndexError
+                # (C01 known finding qr-construction-not-scale-invariant): scaled programs use Hopcroft-Karp
+                d = (Mpo(sp.model, terms, algo="Hopcroft-Karp") if prog.get("hk") else Mpo(sp.model, terms)).todense()
             except Exception as e:  # noqa: BLE001
                 bad.append({"what": "Mpo construction raised", "which": name, "exc": type(e).__name__, "msg": str(e)[:160]})
                 continue
             stats["mpo"] += 1
-            if np.linalg.norm(d - expect) > TOL * (1 + np.linalg.norm(expect)):
+            if np.linalg.norm(d - expect) > TOL * (np.linalg.norm(expect) + sp.scale_of(list(terms))):
                 bad.append({"what": "Mpo(model, terms).todense() != matrix expression", "which": name,
                             "diff": float(np.linalg.norm(d - expect)), "norm": float(np.linalg.norm(expect))})
     if bad:
@@ -335,9 +356,77 @@ def check_split(sp_case, tb):
     for o in ops:
         m = m @ sp.of_op(o)
     e = sp.of_op(v)
-    if np.linalg.norm(m - e) > TOL * (1 + np.linalg.norm(e)):
+    if np.linalg.norm(m - e) > TOL * (np.linalg.norm(e) + sp.scale_of(v)):
         bad.append({"what": "factor * product of elementary operators != operator", "diff": float(np.linalg.norm(m - e))})
     return {"status": "bad", "bad": bad, "op": repr(v)} if bad else {"status": "ok"}
+
+
+def check_scaled(case, sp, tb):
+    """Model construction under global and mixed scales.  case = {"prog": program giving an Op / OpSum,
+    "ks": [k...], "mixed": [k per term]}.  For every scale c = 2**k the term list is scaled in three ways (through
+    the algebra `c * sum`, `sum * c`, and by rebuilding every Op with factor*c) and, once, term by term with the mixed
+    exponents.  Model(basis, scaled).ham_terms must keep exactly the terms with factor != 0, unchanged (same objects),
+    its dense meaning must be c times the dense meaning at c = 1 (scaling by a power of two is exact in binary64, the
+    comparison is relative), and Mpo(model, terms, algo="Hopcroft-Karp").todense() must agree when the words are ones
+    the basis classes implement.  The default qr construction is not used here (C01 known finding at tiny scales)."""
+    res, v = L.run_program(case["prog"], tb)
+    if not isinstance(v, (Op, OpSum)):
+        return {"status": "rejected"}
+    base = OpSum([v]) if isinstance(v, Op) else v
+    if not len(base):
+        return {"status": "rejected"}
+    bad = []
+    ncmp = 0
+    ref = [sp.of_op(o) for o in base]
+
+    def one(label, terms, exps):
+        nonlocal ncmp
+        want = [t for t in terms if t.factor != 0]
+        try:
+            ham = Model(sp.basis, list(terms)).ham_terms
+            again = sp.model.check_operator_terms(OpSum(terms))
+        except Exception as e:  # noqa: BLE001
+            bad.append({"what": "Model construction raised", "how": label, "exc": type(e).__name__, "msg": str(e)[:120]})
+            return
+        ncmp += 1
+        if len(ham) != len(want) or any(a is not b for a, b in zip(ham, want)) or len(again) != len(ham) \
+                or any(a is not b for a, b in zip(again, ham)):
+            lost = [repr(t) for t in want if not any(t is h for h in ham)]
+            bad.append({"what": "Model drops or alters terms with non-zero factor", "how": label, "lost": lost[:3],
+                        "kept": len(ham), "expected": len(want)})
+            return
+        expect = np.zeros((sp.dim, sp.dim), dtype=complex)
+        for m, k in zip(ref, exps):
+            expect = expect + np.ldexp(m.real, k) + 1j * np.ldexp(m.imag, k)
+        got = sp.of_value(list(ham))
+        scale = sum(float(np.ldexp(sp.scale_of(o), k)) for o, k in zip(base, exps))
+        if np.linalg.norm(got - expect) > TOL * scale:
+            bad.append({"what": "dense(Model(c*H).ham_terms) != c * dense(H)", "how": label,
+                        "diff": float(np.linalg.norm(got - expect)), "norm": float(np.linalg.norm(expect))})
+        if mpo_eligible(sp, ham, expect):
+            try:
+                d = Mpo(sp.model, list(terms), algo="Hopcroft-Karp").todense()
+                if np.linalg.norm(d - expect) > TOL * scale:
+                    bad.append({"what": "Mpo(model, c*H, Hopcroft-Karp).todense() != c * dense(H)", "how": label,
+                                "diff": float(np.linalg.norm(d - expect)), "norm": float(np.linalg.norm(expect))})
+            except Exception as e:  # noqa: BLE001
+                bad.append({"what": "Mpo(model, c*H, Hopcroft-Karp) raised", "how": label, "exc": type(e).__name__, "msg": str(e)[:120]})
+
+    try:
+        with warnings.catch_warnings():
+            warnings.simplefilter("error", RuntimeWarning)
+            for k in case["ks"]:
+                c = float(np.ldexp(1.0, k))
+                one("c*H k=%d" % k, list(c * base), [k] * len(base))
+                one("H*c k=%d" % k, list(base * np.float64(c)), [k] * len(base))
+                one("rebuilt k=%d" % k, [Op(o.symbol, o.dofs, o.factor * c, o.qn_list) for o in base], [k] * len(base))
+            mixed = [case["mixed"][i % len(case["mixed"])] for i in range(len(base))]
+            one("mixed %s" % mixed[:6], [o * float(np.ldexp(1.0, k)) for o, k in zip(base, mixed)], mixed)
+    except Exception as e:  # noqa: BLE001
+        bad.append({"what": "scaling the operator sum raised", "exc": type(e).__name__, "msg": str(e)[:120]})
+    if bad:
+        return {"status": "bad", "bad": bad, "value": repr(base)[:300]}
+    return {"status": "ok", "compared": ncmp, "nterms": len(base)}
 
 
 def replay(case):
@@ -346,6 +435,8 @@ def replay(case):
     tb = L.Tables(case["syms"], case["dofs"])
     if "split" in case:
         r = check_split(case["split"], tb)
+    elif "scaled" in case:
+        r = check_scaled(case["scaled"], Space(tb), tb)
     else:
         sp = Space(tb) if case.get("space", "model") == "model" else RandomSpace(tb)
         r = check_program(strip(case["prog"]), sp, tb)
@@ -365,7 +456,8 @@ def main():
     for prog in pl.get("programs", []):
         out.append(check_program(prog, sp, tb))
     spl = [check_split(c, tb) for c in pl.get("splits", [])]
-    print("RESULT " + json.dumps({"results": out, "splits": spl}, default=str))
+    scl = [check_scaled(c, sp, tb) for c in pl.get("scaled", [])]
+    print("RESULT " + json.dumps({"results": out, "splits": spl, "scaled": scl}, default=str))
 
 
 if __name__ == "__main__":
